@@ -232,11 +232,22 @@ def configurator_spec(draw, min_items=3, max_items=7, max_rules=4, explicit_p=60
         ids = draw(st.lists(st.sampled_from(items), min_size=lo, max_size=hi, unique=True))
         return [leaf(i) for i in ids]
 
+    made = []       # plain compounds with explicit ids built so far (candidates for re-use in later rules)
+
     def rule(depth, kinds=CFG_KINDS):
+        r_ = _rule(depth, kinds)
+        if r_["k"] in ("All", "Any", "AtMost") and r_.get("id") and all(c_["k"] == "leaf" for c_ in r_["c"]):
+            made.append(r_)
+        return r_
+
+    def _rule(depth, kinds=CFG_KINDS):
         kind = draw(st.sampled_from(kinds))
         if kind in ("cAny", "cXor"):
             ch = leaves(2, 5)
-            if depth > 0 and draw(st.integers(0, 2)) == 0:
+            if depth > 0 and made and draw(st.integers(0, 5)) == 0:
+                # exactly two alternatives: the default item and ONE compound that is also used by another rule
+                ch = leaves(1, 1) + [draw(st.sampled_from(made))]
+            elif depth > 0 and draw(st.integers(0, 2)) == 0:
                 # incl. a defaulted group inside the (possibly non-default) alternatives of this one
                 ch.append(rule(depth - 1, ["All", "Any", "AtMost", "Xor", "cAny", "cXor", "cAny"]))
             node = {"k": kind, "c": ch, "id": new_id()}
@@ -258,6 +269,8 @@ def configurator_spec(draw, min_items=3, max_items=7, max_rules=4, explicit_p=60
             r = draw(st.integers(0, 3))
             if r == 0:
                 cons = leaf(draw(st.sampled_from(items)))
+            elif made and draw(st.integers(0, 3)) == 0:
+                cons = draw(st.sampled_from(made))          # the same package is required by another rule
             elif r == 1 or depth == 0:
                 cons = {"k": draw(st.sampled_from(["All", "Any", "Xor"])), "c": leaves(1, 3), "id": new_id()}
             else:
